@@ -206,7 +206,10 @@ def run(v, tier, seed):
             # no assertion failed, yet the TU is ill-formed: an error located in sbepp.hpp / a generated header
             # means that the constant evaluation of a call the spec gives a value for is not a constant
             # expression at all (e.g. undefined behaviour inside a choice accessor)
-            errs = [l for l in out.splitlines() if "error:" in l and (vlib.SBEPP_INC in l or inc in l)]
+            import re as _re
+            errs = [l for l in out.splitlines() if "error:" in l and (
+                vlib.SBEPP_INC in l or inc in l
+                or _re.search(r"not an integral constant expression|non-constant condition|is not a constant expression", l))]
             if not errs:
                 raise vlib.InfraError("c15 constexpr TU failed for another reason:\n" + out[-3000:])
             ctx = [l for l in out.splitlines() if "expansion of" in l or "in call to" in l][:3]
